@@ -200,7 +200,10 @@ def deep_logic(g, r, depth, fdepth=1):
         return g.basic(fdepth, 0)
     k = r.randrange(6)
     if k == 0:
-        return ["not", ["paren", deep_logic(g, r, depth - 1, fdepth)]]
+        inner = deep_logic(g, r, depth - 1, fdepth)
+        if r.random() < 0.35:
+            inner = ["not", ["paren", inner]]      # double negation around whatever comes out
+        return ["not", ["paren", inner]]
     if k == 1:
         return ["paren", deep_logic(g, r, depth - 1, fdepth)]
     if k in (2, 3):
